@@ -25,6 +25,9 @@ class Init(Contract):
     fields = {}                 # field name -> specification text of its value after construction
     extra = ()                  # further clause texts
     uses_loop = False
+    varargs = 0                 # number of positional (*upstreams) arguments: opaque, pairwise distinct streams
+    positional = False          # pass `params` positionally, in the documented order (the signature order is part of the API)
+    base = 'Stream'             # the base constructor that must be called
     props = ['C01']
     assumptions = ('Stream.__init__, queue constructors, convert_interval and IOLoop.add_callback are summarised as uninterpreted '
                    'functions of their arguments (their own contracts: c_loop.py Stream.__init__, bounded check of convert_interval)',)
@@ -58,7 +61,17 @@ class Init(Contract):
         g['_pre'] = (self.pre_state, self.pre_args)
         I.contract_pre = self.pre_state
         I.contract_pre_frame = self.pre_frame(I)
-        return selfv, [], dict(args)
+        pos = []
+        for i in range(self.varargs):
+            u = VRef(z3.Const('up%d' % i, sym.Obj), 'Stream')
+            g['up%d' % i] = u
+            pos.append(u)
+        if len(pos) > 1:
+            st.assume(z3.Distinct(*[u.t for u in pos]))
+        self.pre_args = dict(args, self=selfv)
+        if self.positional:
+            return selfv, pos + [args[p[:-4] if p.endswith(':int') else p] for p in self.params], {}
+        return selfv, pos, dict(args)
 
     def globals(self):
         return {'gen': VBuiltin('gen'), 'asyncio': VBuiltin('asyncio'), 'no_default': VStr('--no-default--'),
@@ -95,7 +108,8 @@ class Init(Contract):
             g = I.st.ghost
             g['callbacks'] = VTuple(g['callbacks'].items + [args[0]])
             return NONE
-        return {'Stream.__init__': base_init, 'str.pop': kw_pop, 'IOLoop.add_callback': add_callback}
+        return {'Stream.__init__': base_init, 'DaskStream.__init__': base_init, 'str.pop': kw_pop,
+                'IOLoop.add_callback': add_callback}
 
     def spec_funcs(self):
         def call_default(I, kind, name, recv, args, kwargs):
@@ -154,9 +168,14 @@ class Init(Contract):
         return cl
 
 
-def mk(cls_, params_, fields_, props_, kw_=(), extra_=(), uses_loop_=False):
-    return type('Init_' + cls_, (Init,), {'cls': cls_, 'params': tuple(params_), 'fields': dict(fields_), 'props': list(props_),
-                                          'kw': tuple(kw_), 'extra': tuple(extra_), 'uses_loop': uses_loop_})
+def mk(cls_, params_, fields_, props_, kw_=(), extra_=(), uses_loop_=False, varargs_=0, tag='', positional_=False, file_=None):
+    d = {}
+    if file_:
+        d = {'file': file_, 'files': [file_, CORE]}
+    return type('Init_' + cls_ + tag, (Init,), dict(d, **{'cls': cls_, 'params': tuple(params_), 'fields': dict(fields_), 'props': list(props_),
+                                                'positional': positional_,
+                                                'kw': tuple(kw_), 'extra': tuple(extra_), 'uses_loop': uses_loop_, 'varargs': varargs_,
+                                                'name': '%s.__init__%s' % (cls_, ('[%s]' % tag.strip('_')) if tag else '')}))
 
 
 ALL = [
@@ -190,6 +209,15 @@ ALL = [
        extra_=['base_arg(0) == upstream', "base_kw_names() == ('stream_name',)"]),
     mk('zip_latest', ['lossless'], {'lossless': 'lossless'}, ['C01'],
        extra_=['empty(self.lossless_buffer)']),
+    # positional calls: the order (upstream, func, start, returns_state) is what `stream.accumulate(f, 0)` relies on, locally and on Dask
+    mk('accumulate', ['upstream', 'func', 'start', 'returns_state'],
+       {'func': 'func', 'state': 'start', 'returns_state': 'returns_state'}, ['C12', 'C01', 'C20'], tag='_positional', positional_=True),
+    mk('accumulate', ['upstream', 'func', 'start', 'returns_state'],
+       {'func': 'func', 'state': 'start', 'returns_state': 'returns_state', 'with_state': 'kw_with_state'}, ['C20', 'C12'],
+       kw_=['with_state'], tag='_dask_positional', positional_=True, file_='streamz/dask.py'),
+    mk('combine_latest', [], {'_initial_emit_on': 'None'}, ['C01', 'C15'], varargs_=2, tag='_emit_on_not_given',
+       extra_=['list(self.emit_on) == [up0, up1]', 'len(self.last) == 2 and len(self.metadata) == 2',
+               'up0 in self.missing and up1 in self.missing']),
 ]
 
 for _C in ALL:
